@@ -117,6 +117,28 @@ def sweep_cases(ctx):
                               {"put": [{"path": path, "make": {"kind": "damage", "key": order, "cn": who}}], "flags": ["a"]},
                               {"put": [{"path": "ca.yaml", "text": json.dumps(dict(ca, subject="CN=Key CA G2"))}], "flags": ["m", "c"]}]
                 out.append(c)
+    # artifact files of any size: a stored RSA-8192 / RSA-4096 key (fixtures/rsa*.pem: the file gopki writes back is 9.5 kB / 5 kB), and a
+    # certificate with a 20,000-octet extension next to a small key (27 kB) - what is read back on the next run is the key that was written
+    import os
+    fx = os.path.join(os.path.dirname(os.path.dirname(os.path.abspath(__file__))), "fixtures")
+    for k, f in (("RSA-8192", "rsa8192.pem"), ("RSA-4096", "rsa4096.pem")):
+        pem = open(os.path.join(fx, f)).read()
+        ca, mid, leaf = cfgs(k, 0)
+        c = case(len(out) + 1, [("ca.yaml", ca), ("sub/mid.yaml", mid), ("sub/leaf.yaml", leaf), ("sub/mid.pem", pem)],
+                 tag={"prop": "C14", "class": "stored %s key (large artifact file)" % k, "firstMustSucceed": True})
+        _, mid1, _ = cfgs(k, 1)
+        c["steps"] = [{"flags": ["m", "c"]}, {"put": [{"path": "sub/mid.yaml", "text": json.dumps(mid1)}], "flags": ["c"]}, {"flags": ["a"]},
+                      {"put": [{"path": "ca.yaml", "text": json.dumps(dict(ca, subject="CN=Key CA G2"))}], "flags": ["m", "c"]}]
+        out.append(c)
+    for k in ("P-256", "RSA-1024"):
+        ca, mid, leaf = cfgs(k, 0)
+        big = {"custom": {"oid": "1.3.6.1.4.1.99999.77", "raw": "!binary:" + b64(bytes((i * 13) % 251 for i in range(20000)))}}
+        mid = dict(mid, extensions=mid["extensions"] + [big])
+        c = case(len(out) + 1, [("ca.yaml", ca), ("sub/mid.yaml", mid), ("sub/leaf.yaml", leaf)],
+                 tag={"prop": "C14", "class": "%s key next to a 20,000-octet extension (large artifact file)" % k, "firstMustSucceed": True})
+        c["steps"] = [{"flags": ["m", "c"]}, {"put": [{"path": "sub/mid.yaml", "text": json.dumps(dict(mid, subject="CN=Mid v1, O=Keys"))}], "flags": ["c"]}, {"flags": ["a"]},
+                      {"put": [{"path": "ca.yaml", "text": json.dumps(dict(ca, subject="CN=Key CA G2"))}], "flags": ["m", "c"]}]
+        out.append(c)
     # a PKCS#8 key of an algorithm gopki cannot use (Ed25519): it is the user's key all the same - whatever the run does
     # (fail, most likely), the key stays in the file
     for flags in (["m", "c"], ["a"]):
